@@ -6,6 +6,7 @@ import PyImpSpec.Impedance.CQ
 import PyImpSpec.Gen.Kernels
 import PyImpSpec.Tlm
 import PyImpSpec.Select
+import PyImpSpec.Progress
 
 /-! Line-protocol driver: one request per line (`<model> <op> <args…>`), one canonical reply per line.
 Run with `lake env lean --run Driver/Main.lean`.  The harness sends the same inputs to the real
@@ -169,6 +170,35 @@ def selReply (keys : String) : String :=
   | some w => s!"ok {w.2}"
   | none => "err IndexError"
 
+
+/-! ### progress bookkeeping -/
+
+def parseOp (t : String) : Option Prog.Op :=
+  match t.splitOn ":" with
+  | ["E"] => some .enter
+  | ["X"] => some .exit
+  | ["M", f] => some (.setMessage (f = "1"))
+  | ["I", k, f] => some (.increment k.toInt! (f = "1"))
+  | _ => none
+
+def progRun (npct : Rat) : Prog.PState → List Prog.Op → List String → List String
+  | _, [], acc => acc.reverse
+  | s, op :: rest, acc =>
+    match Prog.step npct s op with
+    | .error e => (("err:" ++ e) :: acc).reverse
+    | .ok (s', e) => progRun npct s' rest ((match e with | some p => s!"{p.num}/{p.den}" | none => "-") :: acc)
+
+def progReply (npct total recent : String) (toks : List String) : String :=
+  let ops := toks.filterMap parseOp
+  "ok " ++ " ".intercalate (progRun (parseRat npct) ⟨0, total.toInt!, parseRat recent⟩ ops [])
+
+def zprogReply (args : List String) : String :=
+  match args with
+  | [sa, ia, wa, cw, nwf] =>
+    let o : Prog.ZOpts := ⟨sa = "1", ia = "1", wa = "1", cw = "1", nwf.toNat!⟩
+    s!"ok {o.total} {o.increments}"
+  | _ => "bad-op"
+
 def dsStep (st : DState) (args : List String) : DState × String :=
   match args with
   | ["reset"] => ({ st with ds := [] }, "ok")
@@ -278,6 +308,9 @@ def step (st : DState) (line : String) : DState × String :=
   | ["cdc", fl] => (st, cdcReply fl "")
   | "ds" :: args => dsStep st args
   | "pa" :: args => paStep st args
+  | "prog" :: npct :: total :: recent :: toks => (st, progReply npct total recent toks)
+  | "zprog" :: args => (st, zprogReply args)
+  | ["fprog", m, w] => (st, s!"ok {Prog.fitTotal m.toNat! w.toNat!} {Prog.fitIncrements m.toNat! w.toNat!}")
   | ["sel", keys] => (st, selReply keys)
   | "tlm" :: which :: a :: b :: c :: d :: e :: binds => (st, tlmReply which [a, b, c, d, e] binds)
   | "ker" :: which :: sym :: binds => (st, kerReply which sym binds)
